@@ -15,8 +15,8 @@ package valid
 //@   ensures [C01 more.str]    k == 24 ==> (isMoreThan == ite(incl, n > max, n >= max))
 //@   ensures [C01 less.int]    isIntKind(k) ==> (isLessThan == ite(incl, rv.int(tv) < min, rv.int(tv) <= min))
 //@   ensures [C01 more.int]    isIntKind(k) ==> (isMoreThan == ite(incl, rv.int(tv) > max, rv.int(tv) >= max))
-//@   ensures [C01 less.uint]   isUintKind(k) ==> (isLessThan == ite(incl, rv.uint(tv) < min, rv.uint(tv) <= min))
-//@   ensures [C01 more.uint]   isUintKind(k) ==> (isMoreThan == ite(incl, rv.uint(tv) > max, rv.uint(tv) >= max))
+//@   ensures [C01 less.uint]   isUintNKind(k) ==> (isLessThan == ite(incl, rv.uint(tv) < min, rv.uint(tv) <= min))
+//@   ensures [C01 more.uint]   isUintNKind(k) ==> (isMoreThan == ite(incl, rv.uint(tv) > max, rv.uint(tv) >= max))
 //@   ensures [C01 less.float]  isFloatKind(k) && fOK ==> (isLessThan == ite(incl, rv.float(tv) < min, rv.float(tv) <= min))
 //@   ensures [C01 more.float]  isFloatKind(k) && fOK ==> (isMoreThan == ite(incl, rv.float(tv) > max, rv.float(tv) >= max))
 //@   ensures [C01 less.slice]  k == 23 ==> (isLessThan == ite(incl, rv.len(tv) < min, rv.len(tv) <= min))
@@ -25,3 +25,116 @@ package valid
 
 //@ func ToStr
 //@   pure
+
+// ---------------------------------------------------------------------------
+// buffers
+
+//@ func newStrBuf
+//@   modifies nothing
+//@   ensures result != nil && fresh(result) && sb.content(result) == ""
+
+//@ func putStrBuf
+//@   requires buf != nil
+//@   modifies sb.content(buf)
+//@   ensures [C11 C12 putStrBuf.reset] sb.content(buf) == ""
+
+// ---------------------------------------------------------------------------
+// rule text
+
+//@ func ParseValidNameKV
+//@   pure
+
+//@ func parseTagTo
+//@   let i = indexof(toVal, "~")
+//@   let wf = i >= 0 && !contains(toVal[i+1:], "~") && atoiOk(toVal[:i]) && atoiOk(toVal[i+1:])
+//@   modifies nothing
+//@   ensures [C01 parseTagTo.ok]  (err == nil) <==> wf
+//@   ensures [C01 parseTagTo.val] wf ==> min == atoi(toVal[:i]) && max == atoi(toVal[i+1:])
+
+// ---------------------------------------------------------------------------
+// clause builders (string content: see C02/C15 clauses further down)
+
+//@ func GetJoinValidErrStr
+//@   modifies nothing
+
+//@ func GetJoinFieldErr
+//@   modifies nothing
+
+// ---------------------------------------------------------------------------
+// size rules
+
+//@ spec measureDefined(k Int) Bool = isIntKind(k) || isUintNKind(k) || isFloatKind(k) || k == 24 || k == 23
+//@ spec measure(v RVal) Real = ite(isIntKind(rv.kind(v)), real(rv.int(v)), ite(isUintNKind(rv.kind(v)), real(rv.uint(v)), ite(isFloatKind(rv.kind(v)), rv.float(v), ite(rv.kind(v) == 24, real(runeCount(rv.str(v))), real(rv.len(v))))))
+//@ spec fits53(n Int) Bool = abs(n) <= 2^53
+
+//@ func eq
+//@   let es = ParseValidNameKV.value(validName)
+//@   let n = atoi(es)
+//@   let k = rv.kind(tv)
+//@   modifies nothing
+//@   ensures eqStr == es && cusMsg == ParseValidNameKV.cusMsg(validName)
+//@   ensures [C01 eq.verdict] atoiOk(es) && measureDefined(k) && fits53(n) ==> (isEq <==> measure(tv) == n)
+
+//@ func To
+//@   requires errBuf != nil && rv.valid(tv) && !rv.ro(tv)
+//@   let val = ParseValidNameKV.value(validName)
+//@   let i = indexof(val, "~")
+//@   let wf = i >= 0 && !contains(val[i+1:], "~") && atoiOk(val[:i]) && atoiOk(val[i+1:])
+//@   let lo = atoi(val[:i])
+//@   let hi = atoi(val[i+1:])
+//@   let k = rv.kind(tv)
+//@   modifies sb.content(errBuf), sb.nw(errBuf)
+//@   ensures [C01 to.verdict] wf && measureDefined(k) && fits53(lo) && fits53(hi) ==> ((sb.nw(errBuf) > old(sb.nw(errBuf))) <==> (measure(tv) < lo || measure(tv) > hi))
+
+//@ func OTo
+//@   requires errBuf != nil && rv.valid(tv) && !rv.ro(tv)
+//@   let val = ParseValidNameKV.value(validName)
+//@   let i = indexof(val, "~")
+//@   let wf = i >= 0 && !contains(val[i+1:], "~") && atoiOk(val[:i]) && atoiOk(val[i+1:])
+//@   let lo = atoi(val[:i])
+//@   let hi = atoi(val[i+1:])
+//@   let k = rv.kind(tv)
+//@   modifies sb.content(errBuf), sb.nw(errBuf)
+//@   ensures [C01 oto.verdict] wf && measureDefined(k) && fits53(lo) && fits53(hi) ==> ((sb.nw(errBuf) > old(sb.nw(errBuf))) <==> (measure(tv) <= lo || measure(tv) >= hi))
+
+//@ func Ge
+//@   requires errBuf != nil && rv.valid(tv) && !rv.ro(tv)
+//@   let val = ParseValidNameKV.value(validName)
+//@   let k = rv.kind(tv)
+//@   modifies sb.content(errBuf), sb.nw(errBuf)
+//@   ensures [C01 ge.verdict] atoiOk(val) && measureDefined(k) && fits53(atoi(val)) ==> ((sb.nw(errBuf) > old(sb.nw(errBuf))) <==> measure(tv) < atoi(val))
+
+//@ func Le
+//@   requires errBuf != nil && rv.valid(tv) && !rv.ro(tv)
+//@   let val = ParseValidNameKV.value(validName)
+//@   let k = rv.kind(tv)
+//@   modifies sb.content(errBuf), sb.nw(errBuf)
+//@   ensures [C01 le.verdict] atoiOk(val) && measureDefined(k) && fits53(atoi(val)) ==> ((sb.nw(errBuf) > old(sb.nw(errBuf))) <==> measure(tv) > atoi(val))
+
+//@ func Gt
+//@   requires errBuf != nil && rv.valid(tv) && !rv.ro(tv)
+//@   let val = ParseValidNameKV.value(validName)
+//@   let k = rv.kind(tv)
+//@   modifies sb.content(errBuf), sb.nw(errBuf)
+//@   ensures [C01 gt.verdict] atoiOk(val) && measureDefined(k) && fits53(atoi(val)) ==> ((sb.nw(errBuf) > old(sb.nw(errBuf))) <==> measure(tv) <= atoi(val))
+
+//@ func Lt
+//@   requires errBuf != nil && rv.valid(tv) && !rv.ro(tv)
+//@   let val = ParseValidNameKV.value(validName)
+//@   let k = rv.kind(tv)
+//@   modifies sb.content(errBuf), sb.nw(errBuf)
+//@   ensures [C01 lt.verdict] atoiOk(val) && measureDefined(k) && fits53(atoi(val)) ==> ((sb.nw(errBuf) > old(sb.nw(errBuf))) <==> measure(tv) >= atoi(val))
+
+//@ func Eq
+//@   requires errBuf != nil && rv.valid(tv) && !rv.ro(tv)
+//@   let val = ParseValidNameKV.value(validName)
+//@   let k = rv.kind(tv)
+//@   modifies sb.content(errBuf), sb.nw(errBuf)
+//@   ensures [C01 Eq.verdict] atoiOk(val) && measureDefined(k) && fits53(atoi(val)) ==> ((sb.nw(errBuf) > old(sb.nw(errBuf))) <==> measure(tv) != atoi(val))
+
+//@ func NoEq
+//@   requires errBuf != nil && rv.valid(tv) && !rv.ro(tv)
+//@   let val = ParseValidNameKV.value(validName)
+//@   let k = rv.kind(tv)
+//@   modifies sb.content(errBuf), sb.nw(errBuf)
+//@   ensures [C01 NoEq.verdict] atoiOk(val) && measureDefined(k) && fits53(atoi(val)) ==> ((sb.nw(errBuf) > old(sb.nw(errBuf))) <==> measure(tv) == atoi(val))
